@@ -7,6 +7,15 @@ props = {json.loads(l)['id']: json.loads(l) for l in open(os.path.join(HERE, 'pr
 pid = sys.argv[1]
 variant = sys.argv[2] if len(sys.argv) > 2 else ""
 p = props[pid]
+# later rounds: one line per change already produced for this property by earlier sub-agents (their own words, nothing
+# about the checks), so that a new agent explores a different mechanism
+prior = []
+sd = os.path.join(HERE, 'seeded')
+for d in sorted(os.listdir(sd)) if variant and os.path.isdir(sd) else []:
+    if d.startswith(pid + '-'):
+        prior.append(d.split('-', 2)[2].replace('-', ' '))
+avoid = ("\n\nOTHER CONTRIBUTORS ALREADY PRODUCED these injections for this property; choose a DIFFERENT mechanism, preferably in a different function or file: "
+         + '; '.join(prior) + '.') if prior else ''
 print(f"""You are helping to test a verification harness by producing a realistic BUG INJECTION for the open-source project apple/swift-llbuild (C++). Work ONLY inside the scratch git worktree /tmp/seed/{pid}{variant} (a full checkout with a configured build in ./_build; `./run_tests.sh` rebuilds and runs the project's 83 pinned unit tests, ~30 s). Do not read or touch /repo or /verif, and do not use the network.
 
 THE PROPERTY your change must break (this is all you are told about what is being verified):
@@ -14,7 +23,7 @@ THE PROPERTY your change must break (this is all you are told about what is bein
   Title: {p['title']}
   Statement: {p['statement']}
   Quantified over: {p['quantifier']['text']}
-  Relevant source files: {', '.join(p['anchors']['files'])}
+  Relevant source files: {', '.join(p['anchors']['files'])}{avoid}
 
 YOUR TASK
 1. Read the relevant llbuild sources and design ONE small, realistic change to the llbuild sources (lib/, include/, products/ — not the tests) that makes the property FALSE, in the way a plausible regression or careless refactoring would (a dropped check, a swapped operand or argument, a wrong comparison operator, a missing lock/notify, a skipped step on one path, an off-by-one, a forgotten field, two cooperating edits that each look fine alone ...).
